@@ -18,7 +18,8 @@ RULE = ("(a) traced single calls: record sizes (message + newline, so >= 2 bytes
         "1048575, +-1) and seeded random sizes x pre-existing file states (absent, empty, no final newline, 1 MiB, path being a symbolic link to the file, dangling link, file owned by somebody else than the caller) x outputs file / "
         "file with path template / devtty / devnull; from the syscall log: the log descriptor is opened with O_APPEND and without "
         "O_TRUNC, exactly one data-transferring call is made on it whose size is the whole record, no ftruncate / positional write, and the "
-        "file afterwards is old content + record. (b) stress: 2..16 concurrent writers (processes x threads) append uniquely "
+        "file afterwards is old content + record (every second size has line feeds INSIDE the message: still one record, one write); every call made on the "
+        "log descriptor, and its open, failing once with EIO/EINTR(/ENOSPC/EAGAIN): the file is the old content or the old content plus the record once. (b) stress: 2..16 concurrent writers (processes x threads) append uniquely "
         "numbered records of 1..70000 bytes to one file (some rounds with a 150..400 us interval timer in every writer, handler without SA_RESTART); the file must be a permutation of whole records, none lost. (c) devtty output with a controlling terminal "
         "that is read only after 0.8..1.5 s: 60..2000 records must all arrive whole, once, in order. non-trivial "
         "(a) = record > 4096 bytes or pre-existing content without final newline or file absent; distinct by (size, state, output)")
@@ -45,13 +46,76 @@ def plan_case(size, state, outk, out):
     return path, output
 
 
+def make_body(msglen):
+    """message bytes; every second length gets line feeds inside (a command line or environment value may well contain them: the
+    record is then still ONE record, appended in one piece)"""
+    if msglen % 2:
+        return (b"0123456789abcdef" * (msglen // 16 + 1))[:msglen]
+    return (b"first line\n\nthird line after an empty one\n0123456789abcde\n" * (msglen // 50 + 1))[:msglen]
+
+
+def run_fault(os_, size, errno_):
+    """every system call the library makes on the log descriptor (and the open itself) fails once with errno_: the file must afterwards
+    be the old content or the old content plus the record ONCE -- never the record twice, never part of it"""
+    out = os_.out
+    path = out + "/c17f.log"
+    msglen = size - 1
+    body = make_body(msglen)
+    old = b"earlier record\n"
+    ini = gen.render_ini([(b"output", b"file:" + path.encode()), (b"message_format", b"%{env:M}"), (b"datasource_message_max_length", b"1048575"),
+                          (b"log_message_max_length", b"1048575")])
+    ops = [drv.op("C", ini), drv.op_env([b"M=" + body]), drv.op_exec("e", b"/bin/p", [b"p"], [], ret=-1, err=2)]
+
+    def fresh():
+        with open(path, "wb") as f:
+            f.write(old)
+    fresh()
+    os_.write_scenario(ops)
+    rc, events = os_.run_traced([], timeout=30)
+    if rc != 0 or not [e for e in events if e.code == "T"]:
+        raise Failure("wrapped call failed under the tracer (fault phase dry run)", {"rc": rc}, key="harness")
+    calls, _ = os_.parse_log()
+    fd, targets = None, []
+    for c in [c for c in calls if c["phase"] == 1]:
+        t = c["text"]
+        if c["name"] in ("open", "openat", "creat") and ('"%s"' % path) in t:
+            m = re.search(r"= (\d+)$", t)
+            if m:
+                fd = m.group(1)
+                targets.append(c)
+                continue
+        if fd is not None:
+            m = re.match(r"^(?:\d+\s+)?[a-z_0-9]+\((\d+)[,)]", t)
+            if m and m.group(1) == fd:
+                targets.append(c)
+                if c["name"] == "close":
+                    fd = None
+    done = 0
+    for c in targets:
+        if c["name"] == "close":
+            continue            # (an injected failure of close() leaks the descriptor by itself)
+        fresh()
+        inj = "%s:error=%s:when=%d" % (c["name"], errno_, c["ordinal"])
+        rc, events = os_.run_traced(["-e", "inject=" + inj], timeout=30, log=False)
+        if rc != 0 or not [e for e in events if e.code == "T"]:
+            raise Failure("the exec call did not complete with %s (record of %d bytes)" % (inj, size), {"rc": rc}, key="fault-call")
+        with open(path, "rb") as f:
+            now = f.read()
+        done += 1
+        if now not in (old, old + body + b"\n"):
+            raise Failure("log file is neither unchanged nor old content + the record once, after %s on the log descriptor (record of %d bytes)" % (inj, size),
+                          {"len": len(now), "records_of_this_call": now.count(body[:40] if len(body) >= 40 else body + b"\n"), "tail": now[-80:]},
+                          {"len_unchanged": len(old), "len_with_record": len(old) + len(body) + 1}, key="fault-content")
+    return done
+
+
 def run_single(os_, size, state, outk, shortwrite=False):
     out = os_.out
     path, output = plan_case(size, state, outk, out)
     msglen = size - 1            # record = message + newline
     if outk == "devtty":
         msglen = min(msglen, 1500)
-    body = (b"0123456789abcdef" * (msglen // 16 + 1))[:msglen]
+    body = make_body(msglen)
     old = None
     if outk in ("file", "filetpl"):
         old = {"absent": None, "empty": b"", "nonl": b"previous line without newline", "big": b"x" * 1048576 + b"\n",
@@ -157,6 +221,23 @@ def worker(args):
     os_ = trace.OneShot(ctx.run, _W["build"], "w%d" % idx)
     fails = []
     for job in jobs:
+        if job[1] == "FAULT":
+            size, _, errno_ = job
+            local.count((size, "fault", errno_), ["fault-on-log-descriptor:" + errno_, "size:" + ("<=4096" if size <= 4096 else ">4096")],
+                        sample={"record_bytes": size, "each_call_on_the_log_descriptor_fails_with": errno_})
+            try:
+                n = run_fault(os_, size, errno_)
+                local.extra["faults_injected_on_log_descriptor"] = local.extra.get("faults_injected_on_log_descriptor", 0) + n
+            except Failure as f:
+                if local.is_known(f.key):
+                    local.known_hit(f.key, f.what)
+                elif f.key == "harness":
+                    local.inconclusive.append(f.what)
+                elif not fails:
+                    ok, last = confirm(lambda c: run_fault(os_, c[0], c[2]), job)
+                    if ok:
+                        fails.append({"case": {"size": size, "fault": errno_}, "what": last.what, "observed": last.observed, "expected": last.expected})
+            continue
         size, state, outk = job[:3]
         sw = len(job) > 3
         nontriv = size > 4096 or state in ("nonl", "absent") or sw
@@ -296,7 +377,9 @@ def main():
         ctx.count("replay-1", ["replay"], sample=case)
         ctx.nontrivial.add("replay-2")
         try:
-            if "size" in case:
+            if "fault" in case:
+                run_fault(os_, case["size"], case["fault"])
+            elif "size" in case:
                 run_single(os_, case["size"], case["state"], case["out"], case.get("shortwrite", False))
             print("replay: property holds for this case")
         except Failure as f:
@@ -315,6 +398,10 @@ def main():
     jobs += [(100, "symlink", "file"), (4097, "symlink", "file"), (100, "dangling-symlink", "file"), (100, "foreign-owner", "file"), (5000, "foreign-owner", "file")]
     for s_ in [100, 5000, 20000] if ctx.quick else [2, 100, 4097, 5000, 20000, 70000, 1048575]:
         jobs += [(s_, "lines", "file", "shortwrite"), (s_, "nonl", "file", "shortwrite")]
+    # every call made on the log descriptor failing once (old content, or old content + the record once)
+    for s_ in [101, 5000] if ctx.quick else [3, 101, 4096, 5000, 70001]:
+        for e_ in ("EIO", "EINTR") if ctx.quick else ("EIO", "EINTR", "ENOSPC", "EAGAIN"):
+            jobs.append((s_, "FAULT", e_))
     nw = 16
     _W.update({"ctx": ctx, "build": b})
     for out, fails in run_workers(worker, nw, [(i, jobs[i::nw]) for i in range(nw)]):
